@@ -13,6 +13,9 @@ type Fault struct {
 	At       int   // byte offset at which the reader fails (0..len)
 	Err      error // the error returned
 	WithData bool  // deliver the error together with n>0 bytes (when any are left before At)
+	// Once: the reader reports the error a single time and then behaves as if
+	// the stream had ended there (io.Reader does not require errors to repeat).
+	Once bool
 }
 
 // ReaderStats counts what the simulated reader actually did.
@@ -37,7 +40,8 @@ type SimReader struct {
 	OnRead func()
 	// Style biases the chunk distribution: 0 mixed, 1 always one byte,
 	// 2 always as much as fits, 3 small chunks 1..4, 4 as much as fits and
-	// the last bytes together with io.EOF.
+	// the last bytes together with io.EOF, 5 small chunks with a zero-length read
+	// before each.
 	Style int
 	log   []string
 	Trace bool
@@ -58,8 +62,12 @@ func (r *SimReader) Read(p []byte) (int, error) {
 	}
 	r.Stats.Reads++
 	if r.failed != nil {
-		// sticky error
 		r.Stats.ReadsAfterError++
+		if r.fault != nil && r.fault.Once {
+			r.tr("read(%d) -> 0, EOF (after the error was reported once)", len(p))
+			return 0, io.EOF
+		}
+		// sticky error
 		return 0, r.failed
 	}
 	if len(p) == 0 {
@@ -88,6 +96,13 @@ func (r *SimReader) Read(p []byte) (int, error) {
 		r.tr("read(%d) -> 0, EOF", len(p))
 		return 0, io.EOF
 	}
+	// stutter: every other read returns nothing (legal, discouraged)
+	if r.Style == 5 && r.zeros == 0 {
+		r.zeros = 1
+		r.Stats.ZeroReads++
+		r.tr("read(%d) -> 0, nil", len(p))
+		return 0, nil
+	}
 	// zero-length read (legal, discouraged): at most 3 in a row
 	if r.Style == 0 && r.zeros < 3 && r.s.Draw(24, "read-zero") == 0 {
 		r.zeros++
@@ -106,7 +121,7 @@ func (r *SimReader) Read(p []byte) (int, error) {
 		n = 1
 	case 2, 4:
 		n = max
-	case 3:
+	case 3, 5:
 		n = 1 + r.s.Draw(4, "read-small")
 	default:
 		switch r.s.Pick([]int{4, 2, 2, 2, 2, 4, 3, 3}, "read-kind") {
